@@ -89,6 +89,10 @@ class ScanModel(LinModel):
             if first and self.cell.get('sep_last'):
                 return TOP          # a separator was the last character of the text: one more (empty) field must follow
             raise Ret(Sym('EMITTED'))
+        h = it.prog.funcs.get(callee['id']) if callee.get('repo') else None
+        if h is not None and h.body is not None and h.relfile.startswith('src/csv/') and depth < it.max_depth \
+                and (not h.cls or h.cls == NS + self.cls) and len(list(h.walk())) < 300 and name not in ('ReadChunk', 'IsEnd'):
+            return NotImplemented       # small helpers extracted from the scanner (free functions or private members)
         for a in args:
             it.ev(fr, a, depth)
         return TOP
@@ -233,7 +237,7 @@ def expected(cell):
 
 def run_cell(prog, cls, roles, cell):
     model = ScanModel(prog, cls, roles, cell)
-    it = ScanInterp(prog, model, max_depth=1, max_paths=60)
+    it = ScanInterp(prog, model, max_depth=2, max_paths=60)
     f = roles['f']
 
     def init(it_, fr):
